@@ -19,7 +19,8 @@ fn do_case(case: Vec<i128>) {
                 1 => forms::run::<u32, u32, u32, N>(&case),
                 2 => forms::run::<Tr, u32, Tr, N>(&case),
                 3 => forms::run::<u32, Tr, Tr, N>(&case),
-                _ => forms::run::<forms::Cn, forms::Cn, forms::Cn, N>(&case),
+                4 => forms::run::<forms::Cn, forms::Cn, forms::Cn, N>(&case),
+                _ => forms::run::<forms::Zs, forms::Zs, forms::Zs, N>(&case),
             },
             panic!("length {} not monomorphised", n)
         )
@@ -47,9 +48,9 @@ fn main() {
     }
     let ns: Vec<usize> = vec![0, 1, 2, 3, 4, 5, 6, 16, 33, 97];
     for &n in &ns {
-        for elem in [0i128, 1, 2, 3, 4] {
+        for elem in [0i128, 1, 2, 3, 4, 5] {
             for (op, nforms) in [(0i128, 4i128), (1, 10), (2, 4), (3, 4), (4, 1), (5, 1)] {
-                if (elem == 1 && op >= 4) || ((elem == 2 || elem == 3) && op != 1) || (elem == 4 && op != 4) {
+                if (elem == 1 && op >= 4) || ((elem == 2 || elem == 3) && op != 1) || (elem == 4 && op != 4) || (elem == 5 && op >= 4) {
                     continue;
                 }
                 for form in 0..nforms {
